@@ -12,7 +12,7 @@
      ("gabi_body" le is64 rsv size align #blob) ("zdebug_body" size #blob)
      ("debuglink_body" le #name #pad crc) ("altlink_body" #name #id)
      ("debugsup_body" le version is_sup #name #rest)    -> #bytes  (Spec encoders)
-     ("t_gabi" #img ((idx rsv align off #blob) ...) tbl) / ("t_zgnu" #img ((#name off #blob) ...) tbl)
+     ("t_gabi" #img ((idx rsv align off #blob) ...) tbl) / ("t_zgnu" #img ((idx off #blob) ...) tbl)
                                                         -> spec view of the Coq transform of the parsed file
      ("secs" #img)                                      -> the abstract sections (name type flags addr size #content)
 *)
@@ -78,8 +78,8 @@ Definition gabi_choice (args : list sx) (i : nat) : option gabi_args :=
               Some (mkGabi (gI (nthx 1 l)) (gI (nthx 2 l)) (gI (nthx 3 l)) (gB (nthx 4 l)) [])
   | None => None
   end.
-Definition zgnu_choice (args : list sx) (n : list Z) : option zgnu_args :=
-  match find (fun r => bytes_eqb (gB (nthx 0 (gL r))) n) args with
+Definition zgnu_choice (args : list sx) (i : nat) : option zgnu_args :=
+  match find (fun r => (gI (nthx 0 (gL r)) =? Z.of_nat i)%Z) args with
   | Some r => let l := gL r in Some (mkZgnu (gI (nthx 1 l)) (gB (nthx 2 l)) [])
   | None => None
   end.
